@@ -91,6 +91,25 @@ example : skywayEndBlocker 100 [1, 2] true = .returned ["batches", "tally 1", "p
     "prune attestations 2", "validator nonces 2", "gas estimates", "timed-out batches"] := by decide
 example : evmEndBlock 300 true = .returned ["compass deployments", "just-in-time valset updates", "external balances"] := by decide
 
+theorem translated_skyway_module_EndBlock : translated "x/skyway.AppModule.EndBlock" = true := by decide
+theorem translated_paloma_EndBlock : translated "x/paloma.AppModule.EndBlock" = true := by decide
+theorem translated_metrix_EndBlock : translated "x/metrix.AppModule.EndBlock" = true := by decide
+
+/-- C09: the bridge module's `EndBlock` — the translation is accepted only while the function still contains its deferred
+    `recover` (a required statement of the configuration), and it always returns `nil` -/
+theorem skywayModuleEndBlock_returns :
+    skywayModuleEndBlock = .returned ["bridge end blocker, under the module's own recover"] := by decide
+
+theorem palomaEndBlock_phases (h : Int) (f : Bool) :
+    palomaEndBlock h f = .returned (if Int.tmod h 303 == 0 then ["jail validators without chain accounts"] else []) := by
+  simp only [palomaEndBlock, Id.run]
+  cases f <;> by_cases h1 : (Int.tmod h 303 == 0) = true <;> simp [h1]
+
+theorem metrixEndBlock_phases (h : Int) :
+    metrixEndBlock h = .returned (if Int.tmod h 10 == 0 then ["purge relay metrics", "update relay metrics", "update uptime"] else []) := by
+  simp only [metrixEndBlock, Id.run]
+  by_cases h1 : (Int.tmod h 10 == 0) = true <;> simp [h1]
+
 /-- non-vacuity -/
 example : consensusEndBlock 100 true true true = .returned ["estimates", "attestations", "prune older than 300"] := by decide
 example : consensusEndBlock 101 true false false = .returned ["estimates", "attestations"] := by decide
